@@ -433,3 +433,99 @@ pub fn lzma2_wide_decl3() {
 pub fn lzma2_wide_decl4() {
     wide_chunk::<4>()
 }
+
+/// parse_lzma called directly with a fully symbolic status byte below 0x80 (decompress
+/// dispatches 0 -> end, 1/2 -> uncompressed, everything else -> parse_lzma): 0x03..=0x7F is Err
+/// before anything is read.
+//@ harness props=C17,C02 tier=quick unwind=6 unwindset=default_read_exact:4 mem_gb=4 timeout=600 native=no
+//@ bound: parse_lzma with every status byte < 0x80 on a 12-byte symbolic input
+#[cfg_attr(kani, kani::proof)]
+#[cfg_attr(kani, kani::stub(std::fmt::format, crate::verif_common::stub_format))]
+#[cfg_attr(kani, kani::stub(crate::decode::lzma::DecoderState::process_next_inner, crate::decode::lzma::verif_h::abs_symbol))]
+#[cfg_attr(kani, kani::stub(crate::decode::lzma::DecoderState::reset_state, crate::decode::lzma2::verif_h::observing_reset_state))]
+pub fn lzma2_parse_lzma_invalid_status() {
+    let mut t = Tape::<32>::new();
+    let status = t.u8();
+    let f: [u8; 12] = t.bytes::<12>();
+    assume(status < 0x80);
+    let mut dec = mk_decoder([script(1, K_LIT); 4]);
+    let mut rd = ArrReader::<12>::new(f, 12);
+    let mut sink = RecSink::<4>::new();
+    let mut accum = crate::decode::lzbuffer::verif_h::accum_from_stream_with_capacity(&mut sink, usize::MAX);
+    let r = dec.parse_lzma(&mut accum, &mut rd, status);
+    vassert!(r.is_err(), "lzma2: control bytes 0x03..=0x7F are rejected");
+    vassert!(rd.pos == 0, "lzma2: an invalid control byte is rejected before reading further");
+    vcover!(status == 0x7F, "status_7f");
+    forget(r);
+    forget(accum);
+    forget(dec);
+}
+
+/// parse_lzma called directly, class CLASS, one abstract one-byte symbol: the 5+16-bit
+/// uncompressed-size field, the property byte and the initial window length are symbolic.
+fn parse_lzma_fields<const CLASS: usize>() {
+    let mut t = Tape::<32>::new();
+    let hi5 = t.u8() & 0x1F;
+    let ulo = t.u16();
+    let props = t.u8();
+    let body: [u8; 6] = t.bytes::<6>();
+    let status = 0x80 | ((CLASS as u8) << 5) | hi5;
+    let has_props = CLASS >= 2;
+    let mut f = [0u8; 16];
+    f[0] = (ulo >> 8) as u8;
+    f[1] = ulo as u8;
+    f[2] = 0;
+    f[3] = 5; // packed = 6: preamble + one 1-byte symbol
+    let mut n = 4;
+    if has_props {
+        f[n] = props;
+        n += 1;
+    }
+    let mut i = 0;
+    while i < 6 {
+        f[n + i] = body[i];
+        i += 1;
+    }
+    let total = n + 6;
+    let mut dec = mk_decoder([script(1, K_LIT), script(20, K_LIT), script(20, K_LIT), script(20, K_LIT)]);
+    let mut rd = ArrReader::<16>::new(f, total);
+    let mut sink = RecSink::<4>::new();
+    let mut accum = crate::decode::lzbuffer::verif_h::accum_from_stream_with_capacity(&mut sink, usize::MAX);
+    let r = dec.parse_lzma(&mut accum, &mut rd, status);
+    let ok = r.is_ok();
+    forget(r);
+    let unpacked = (((hi5 as u64) << 16) | (ulo as u64)) + 1;
+    let lc = (props as u32) % 9;
+    let lp = ((props as u32) / 9) % 5;
+    let props_ok = !has_props || ((props as u32) < 225 && lc + lp <= 4);
+    vassert!(ok == (props_ok && unpacked == 1), "lzma2: chunk accepted iff properties legal and declared size ((ctl & 0x1F) << 16 | be16) + 1 equals what it produces");
+    if ok {
+        vassert!(crate::decode::lzma::verif_h::unpacked_size_of(&dec.lzma_state) == Some(1), "lzma2: per-chunk target = window length + declared size");
+        vassert!(rd.pos == total, "lzma2: chunk consumed exactly its header and payload");
+    }
+    vcover!(ok, "fields_ok");
+    vcover!(!ok && props_ok, "size_mismatch");
+    vcover!(true, "end_reached");
+    forget(accum);
+    forget(dec);
+}
+
+//@ harness props=C02,C17 tier=quick unwind=8 unwindset=process_mode:4,default_read_exact:4 mem_gb=10 timeout=900 native=no
+//@ bound: parse_lzma directly, class 0 (no reset), symbolic 21-bit uncompressed-size field, one abstract symbol
+#[cfg_attr(kani, kani::proof)]
+#[cfg_attr(kani, kani::stub(std::fmt::format, crate::verif_common::stub_format))]
+#[cfg_attr(kani, kani::stub(crate::decode::lzma::DecoderState::process_next_inner, crate::decode::lzma::verif_h::abs_symbol))]
+#[cfg_attr(kani, kani::stub(crate::decode::lzma::DecoderState::reset_state, crate::decode::lzma2::verif_h::observing_reset_state))]
+pub fn lzma2_parse_lzma_fields_c0() {
+    parse_lzma_fields::<0>()
+}
+
+//@ harness props=C02,C17 tier=quick unwind=8 unwindset=process_mode:4,default_read_exact:4 mem_gb=10 timeout=900 native=no
+//@ bound: parse_lzma directly, class 2 (state reset + new props), symbolic property byte and 21-bit size field, one abstract symbol
+#[cfg_attr(kani, kani::proof)]
+#[cfg_attr(kani, kani::stub(std::fmt::format, crate::verif_common::stub_format))]
+#[cfg_attr(kani, kani::stub(crate::decode::lzma::DecoderState::process_next_inner, crate::decode::lzma::verif_h::abs_symbol))]
+#[cfg_attr(kani, kani::stub(crate::decode::lzma::DecoderState::reset_state, crate::decode::lzma2::verif_h::observing_reset_state))]
+pub fn lzma2_parse_lzma_fields_c2() {
+    parse_lzma_fields::<2>()
+}
